@@ -72,6 +72,9 @@ type fctx struct {
 	recv   string   // mutator: the receiver variable, returned at every exit
 	cut    bool     // prefix target: the cut was reached
 	inLoop int
+	trace  bool   // trace target: the result is the list of events
+	evT    [2]typ // payload types of RgCall / RgOut
+	evSet  [2]bool
 }
 
 func (f *fctx) errf(n ast.Node, format string, a ...interface{}) error {
@@ -563,6 +566,9 @@ func (f *fctx) current(lhs ast.Expr, e env) (val, error) { return f.expr(lhs, e)
 // stmts translates a statement list into one Gallina expression; every line is indented by ind.
 func (f *fctx) stmts(list []ast.Stmt, e env, k *cont, ind string) (string, error) {
 	if len(list) == 0 {
+		if k == nil && f.trace {
+			return ind + "[]", nil
+		}
 		if k == nil {
 			return f.fallOff(ind, e)
 		}
@@ -580,6 +586,11 @@ func (f *fctx) stmts(list []ast.Stmt, e env, k *cont, ind string) (string, error
 			return "", err
 		}
 		return pre + r, nil
+	}
+	if f.trace && k == nil && f.inLoop == 0 {
+		if out, ok, err := f.traceStmt(st, rest, e, ind); ok || err != nil {
+			return out, err
+		}
 	}
 	switch s := st.(type) {
 	case *ast.EmptyStmt:
@@ -1161,8 +1172,17 @@ func (f *fctx) loop(st ast.Stmt, e env, ind string) (string, error) {
 		if cond.Op == token.LEQ {
 			hi.s = "(Z.add " + hi.s + " 1%Z)"
 		}
-		post, ok := s.Post.(*ast.IncDecStmt)
-		if !ok || post.Tok != token.INC || exprString(post.X) != iv.Name {
+		stepOK := false
+		switch post := s.Post.(type) {
+		case *ast.IncDecStmt:
+			stepOK = post.Tok == token.INC && exprString(post.X) == iv.Name
+		case *ast.AssignStmt: // i += 1, i = i + 1
+			if len(post.Lhs) == 1 && len(post.Rhs) == 1 && exprString(post.Lhs[0]) == iv.Name {
+				stepOK = post.Tok == token.ADD_ASSIGN && exprString(post.Rhs[0]) == "1" ||
+					post.Tok == token.ASSIGN && (exprString(post.Rhs[0]) == iv.Name+"+1" || exprString(post.Rhs[0]) == "1+"+iv.Name)
+			}
+		}
+		if !stepOK {
 			return "", f.errf(s, "loop step is not `%s++`", iv.Name)
 		}
 		// the bound is evaluated once here: the body may not assign anything it mentions
@@ -1284,4 +1304,123 @@ func removeStr(l []string, s string) []string {
 		}
 	}
 	return out
+}
+
+// ---------------------------------------------------------------- trace targets
+
+// the sink a call statement feeds: 0 = a call of the traced function itself, 1 = an output
+func (f *fctx) sinkOf(st ast.Stmt) (*ast.CallExpr, int, bool) {
+	es, ok := st.(*ast.ExprStmt)
+	if !ok {
+		return nil, 0, false
+	}
+	c, ok := es.X.(*ast.CallExpr)
+	if !ok {
+		return nil, 0, false
+	}
+	switch f.opt.Trace[exprString(c.Fun)] {
+	case "call":
+		return c, 0, true
+	case "out":
+		return c, 1, true
+	}
+	return nil, 0, false
+}
+
+func (f *fctx) hasSink(list []ast.Stmt) bool {
+	found := false
+	for _, s := range list {
+		ast.Inspect(s, func(n ast.Node) bool {
+			if st, ok := n.(ast.Stmt); ok {
+				if _, _, is := f.sinkOf(st); is {
+					found = true
+				}
+			}
+			return true
+		})
+	}
+	return found
+}
+
+// traceStmt handles, at the top level of a trace target: a sink call (one event), an if statement
+// whose branches contain sink calls (the events of the branch taken), a bare return (no more events)
+func (f *fctx) traceStmt(st ast.Stmt, rest []ast.Stmt, e env, ind string) (string, bool, error) {
+	if c, kind, ok := f.sinkOf(st); ok {
+		// the payload: the arguments the translator models (writers, the SDF are left out)
+		var vs []string
+		var ts []typ
+		for _, a := range c.Args {
+			if id, isId := a.(*ast.Ident); isId {
+				if b := e[id.Name]; b != nil && b.t.k == kOpaque {
+					continue
+				}
+			}
+			v, err := f.structArg(a, e)
+			if err != nil {
+				return "", true, err
+			}
+			if v, err = f.deflt(a, v); err != nil {
+				return "", true, err
+			}
+			vs, ts = append(vs, v.s), append(ts, v.t)
+		}
+		if len(vs) == 0 {
+			return "", true, f.errf(st, "traced call without a modelled argument")
+		}
+		pv, pt := vs[0], ts[0]
+		if len(vs) > 1 {
+			pv, pt = "("+strings.Join(vs, ", ")+")", tupType(ts...)
+		}
+		if f.evSet[kind] && !f.evT[kind].eq(pt) {
+			return "", true, f.errf(st, "traced calls with payloads of different types")
+		}
+		f.evT[kind], f.evSet[kind] = pt, true
+		r, err := f.stmts(rest, e, nil, ind)
+		if err != nil {
+			return "", true, err
+		}
+		ctor := []string{"RgCall", "RgOut"}[kind]
+		return ind + "((" + ctor + " " + pv + ") ::\n" + r + ")", true, nil
+	}
+	switch s := st.(type) {
+	case *ast.ReturnStmt:
+		if len(s.Results) == 0 {
+			if len(rest) != 0 {
+				return "", true, f.errf(rest[0], "statement after return")
+			}
+			return ind + "[]", true, nil
+		}
+	case *ast.IfStmt:
+		thenL, elseL := s.Body.List, stmtList(s.Else)
+		if !f.hasSink(thenL) && !f.hasSink(elseL) {
+			return "", false, nil
+		}
+		if s.Init != nil {
+			return "", true, f.errf(s, "if statement with an init clause")
+		}
+		c, err := f.expr(s.Cond, e)
+		if err != nil {
+			return "", true, err
+		}
+		if c.t.k != kBool {
+			return "", true, f.errf(s, "condition is not boolean")
+		}
+		a, err := f.stmts(thenL, e.clone(), nil, ind+"    ")
+		if err != nil {
+			return "", true, err
+		}
+		b, err := f.stmts(elseL, e.clone(), nil, ind+"    ")
+		if err != nil {
+			return "", true, err
+		}
+		if terminates(thenL) || terminates(elseL) {
+			return "", true, f.errf(s, "return inside a traced branch")
+		}
+		r, err := f.stmts(rest, e, nil, ind+"  ")
+		if err != nil {
+			return "", true, err
+		}
+		return ind + "((if " + c.s + " then (\n" + a + ")\n" + ind + "  else (\n" + b + ")) ++\n" + r + ")", true, nil
+	}
+	return "", false, nil
 }
